@@ -23,6 +23,7 @@ pub struct AstUnknownAtRule { pub name: Interpolation, pub value: Option<Interpo
 pub struct AstMixin { pub name: Identifier, pub args: ArgumentDeclaration, pub body: Vec<AstStmt>, pub has_content: bool }
 pub struct AstContentBlock { pub args: ArgumentDeclaration, pub body: Vec<AstStmt> }
 pub struct AstInclude { pub namespace: Option<Spanned<Identifier>>, pub name: Spanned<Identifier>, pub args: ArgumentInvocation, pub content: Option<AstContentBlock>, pub span: Span }
+pub struct AstStyle { pub name: Interpolation, pub value: Option<Spanned<AstExpr>>, pub body: Vec<AstStmt>, pub span: Span }
 pub struct AstFunctionDecl { pub name: Spanned<Identifier>, pub arguments: ArgumentDeclaration, pub body: Vec<AstStmt> }
 pub enum AstStmt {
     SilentComment(AstSilentComment),
@@ -43,6 +44,7 @@ pub enum AstStmt {
     Mixin(AstMixin),
     Include(AstInclude),
     FunctionDecl(AstFunctionDecl),
+    Style(AstStyle),
 }
 pub enum VariableDeclOrInterpolation { VariableDecl(AstVariableDecl), Interpolation(Interpolation) }
 pub enum DeclarationOrBuffer { Stmt(AstStmt), Buffer(Interpolation) }
